@@ -10,6 +10,7 @@ import DimodProofs.HeaderContracts
 import DimodProofs.ZipEnd
 import DimodProofs.CqmDirs
 import DimodProofs.CqmClosed
+import DimodProofs.DqmClosed
 
 /-! # C09 — binary model files load back as the identical model
 
@@ -641,5 +642,43 @@ theorem format_constants_from_source (c : DqmContent) :
     Gen.qmVersion = [1, 0] ∧ Gen.dqmVersion = [1, 1] ∧ Gen.bqmVersionLimit = 3 ∧ Gen.dqmVersionLimit = 2 := by
   refine ⟨by decide, by decide, by decide, by decide, by decide, by simp [dqmMembers, mStarts, mLinear, mRow, mCol, mQuad, mOffset]; decide, by decide, by decide, by decide, by decide, by decide,
     by decide, by decide, by decide, by decide, by decide, by decide, by decide, by decide, by decide, by decide, by decide⟩
+
+/-- **`.npy` members and the `.npz` archive**: `format.read_array` (magic, version, header length, the dictionary
+    `{'descr': …, 'fortran_order': False, 'shape': …, }` with its padding to a multiple of 64, exactly
+    `count * itemsize` data bytes) reads back every array `np.savez` wrote, whatever follows it; and the
+    archive's members `<name>.npy` come back as the arrays, in order. -/
+theorem npy_roundtrip (m : NpyMember) (hm : m.OK) (rest : Bytes) (ms : List NpyMember) (hms : ∀ x ∈ ms, x.OK) :
+    parseNpy m.name (npyFile m ++ rest) = some m ∧ (npyHeader m.descr m.shape).length % 64 = 0 ∧
+    npzMembersOf (npzArchive ms) = some ms := by
+  refine ⟨parseNpy_npyFile m hm rest, ?_, npzMembersOf_archive ms hms⟩
+  simp only [npyHeader, List.length_append, toLE_length, spaces_length, List.length_cons, List.length_nil]
+  have : npyMagic.length = 6 := by decide
+  omega
+
+/-- **DQM files, closed**: for every DQM content in the format's domain (`DqmWF`, every array fits its `.npy` header:
+    `NpyMember.OK`), every label list (floats in `repr` form) and both values of `ignore_labels` / `compress`:
+    the bytes `DiscreteQuadraticModel.to_file` writes — header dictionary, `BIAS` frame, `.npy` headers and data,
+    ZIP local headers / central directory / end record, `VARS` — load back through the whole modelled `from_file`
+    (the loader that hands `np.load` the `BIAS` section) to the header dictionary, the DQM content and the labels.
+    Nothing is a parameter except `crc32` (checked) and, for `compress=True`, the codec contract. -/
+theorem dqm_file_roundtrip_closed (crc32 : Bytes → Nat) (inflate : Bytes → Option Bytes) (deflate : Option (Bytes → Bytes))
+    (μ : Nat → ZMeta) (ignore : Bool) (c : DqmContent) (labels : List FLabel)
+    (wf : DqmWF c) (hnpy : ∀ m ∈ dqmMembers c, m.OK) (hl : JOKs (serializeLabels labels)) (hn : labels.length = c.caseStarts.length)
+    (hcrc : ∀ b, crc32 b < 256 ^ 4) (hcodec : ∀ d, deflate = some d → ∀ b, inflate (d b) = some b) (hμ : ∀ i, (μ i).OK)
+    (hfit : ∀ m ∈ npzArchive (dqmMembers c), MemberFits deflate m)
+    (hsize : (npzBytes crc32 deflate μ (dqmMembers c)).length < 4294967295)
+    (hlen : (dumpsDict (dqmCountsDict (dqmCounts c) (dqmVariablesFlag ignore labels))).length + 65 < 2 ^ 32)
+    (hvlen : (dumpsJ (.arr (serializeLabels labels))).length + 64 < 256 ^ nlb4) :
+    loadDqm crc32 inflate (dumpDqm crc32 deflate μ ignore c labels) =
+      .ok (dqmCountsDict (dqmCounts c) (dqmVariablesFlag ignore labels), c,
+           if dqmVariablesFlag ignore labels then some (serializeLabels labels) else none) := by
+  obtain ⟨x, e, hxe, h22, hsig, hz, hdir, hmagic, hread⟩ :=
+    readDqmBlob_npz crc32 inflate deflate μ c wf hnpy hcrc hcodec hμ hfit hsize
+  unfold loadDqm dumpDqm
+  rw [hxe]
+  have h256 : (256 : Nat) ^ 4 = 4294967296 := by decide
+  exact dqm_blob_loader_roundtrip parseDqmHeader parseVarsReal (readDqmBlob crc32 inflate) (fun d => d.caseStarts.length) _ x e
+    (varsTextOf labels) _ _ c (serializeLabels labels) (dqm_header_ok _ _ hlen) (by rw [← hxe]; omega) hmagic h22 hsig hz hdir hread
+    (fun _ => ⟨VarsOK_real _ hl hvlen, by rw [serializeLabels_length, hn]⟩)
 
 end C09
